@@ -14,7 +14,7 @@ cls("pint.facets.plain.definitions:DerivedDimensionDefinition", fields={"referen
 cls("pint.facets.plain.registry:RegistryCache",
     fields={"dimensionality": "Dict[Map[Str,Num],Ref[UnitsContainer]]",
             "root_units": "Dict[Map[Str,Num],Tuple[Opt[Num],Ref[UnitsContainer]]]",
-            "conversion_factor": "Dict[Tuple[Map[Str,Num],Map[Str,Num]],Num]"})
+            "conversion_factor": "Dict[Tuple[Map[Str,Num],Map[Str,Num]],Opt[Num]]"})
 cls("pint.facets.plain.registry:GenericPlainRegistry",
     fields={"_units": "Dict[Str,Ref[UnitDefinition]]", "_dimensions": "Dict[Str,Ref[DimensionDefinition]]",
             "_cache": "Ref[RegistryCache]", "_non_int_type": "NumType"})
@@ -27,6 +27,7 @@ specfn("RootS", ["Str", "SetV[Str]", "Arr[Str,Num]"], "Num")
 specfn("f1", ["Str"], "Num")
 specfn("FacS", ["SetV[Str]", "Arr[Str,Num]", "Num"], "Num")
 specfn("is_dim_name", ["Str"], "Bool")
+specfn("FacDiff", ["SetV[Str]", "Arr[Str,Num]", "SetV[Str]", "Arr[Str,Num]"], "Num")
 
 # Dim_b(u) for a container u
 predicate("names_ok", ["u: Ref[UnitsContainer]"], "forall[Str](lambda k: implies(k in u._d, len(k) > 0))")
@@ -71,15 +72,17 @@ contract(f"{REG}.get_name",
          allow_exc=("UndefinedUnitError", "OffsetUnitCalculusError"),
          ensures={
              "present": "result in self._units",
+             "canonical": "self._units[result].name == result",
              "same_dim": "forall[Str](lambda b: d1(b, result) == d1(b, name_or_alias))",
-             "reg": "implies(old(RegDim(self)), RegDim(self))",
-             "monotone": "forall[Str](lambda k: implies(k in old(contents(self._units)), "
-                         "k in self._units and self._units[k] == old(contents(self._units))[k]))",
+             "same_root": "forall[Str](lambda q: r1(q, result) == r1(q, name_or_alias))",
+             "same_factor": "f1(result) == f1(name_or_alias)",
          },
-         modifies=["contents(self._units)"],
+         modifies=[],
          trusted=True,
-         note="canonical-name resolution with lazy registration of prefixed units; decided by the C08 contracts "
-              "and stand-in, assumed on the C01/C02 chain",
+         note="canonical-name resolution (decided under C08).  A7: the lazily materialised entries of prefixed units are "
+              "modelled as already present in the unit table (the table of the model is the limit of lazy "
+              "registration), so get_name has no observable effect on it; reads of self._units[name] happen only "
+              "after get_name(name) in the verified code",
          props=["C01", "C02"])
 
 contract(f"{REG}._get_dimensionality_recurse",
@@ -91,17 +94,15 @@ contract(f"{REG}._get_dimensionality_recurse",
          ensures={
              "accumulates": "forall[Str](lambda b: contents(accumulator)[b] == "
                             "old(contents(accumulator))[b] + exp * DimOf(b, ref))",
-             "reg": "RegDim(self)",
          },
          loops={0: dict(
              invariant={
                  "acc": "forall[Str](lambda b: contents(accumulator)[b] == old(contents(accumulator))[b] "
                         "+ exp * DimS(b, processed, vals(view(ref))))",
-                 "reg": "RegDim(self)",
-                 "ref": "wf(ref) and names_ok(ref) and iterated == keys(ref._d)",
+                 "ref": "iterated == keys(ref._d)",
              },
-             modifies=["contents(accumulator)", "contents(self._units)"])},
-         modifies=["contents(accumulator)", "contents(self._units)"],
+             modifies=["contents(accumulator)"])},
+         modifies=["contents(accumulator)"],
          theories=("lin",),
          props=["C01", "C13"])
 
@@ -138,17 +139,16 @@ contract(f"{REG}._get_dimensionality",
              {"_name": "uc", "input_units": "Ref[UnitsContainer]",
               "_requires": ["wf(input_units) and names_ok(input_units)"]},
              {"_name": "none", "input_units": "None",
-              "_ensures": {"empty": "view(result) == empty_map[Str, Num]()", "reg": "RegDim(self)",
+              "_ensures": {"empty": "view(result) == empty_map[Str, Num]()",
                            "cache": "CacheDimOK(self)", "wf": "wf(result)"}},
          ],
          allow_exc=("ValueError", "UndefinedUnitError", "OffsetUnitCalculusError"),
          ensures={
              "wf": "wf(result)",
              "dim": "forall[Str](lambda b: view(result)[b] == (0 if b == '[]' else DimOf(b, input_units)))",
-             "reg": "RegDim(self)",
              "cache": "CacheDimOK(self)",
          },
-         modifies=["contents(self._cache.dimensionality)", "contents(self._units)"],
+         modifies=["contents(self._cache.dimensionality)"],
          theories=("lin",),
          props=["C01", "C13"])
 
@@ -184,16 +184,6 @@ predicate("RegFac", ["r: Ref[GenericPlainRegistry]"], """
                                               r1(q, k) == RootOf(q, some(r._units[k].reference))), "r1(q, k)")
 """)
 
-from pv.decl import CONTRACTS as _C  # noqa: E402
-
-_gn = _C[f"{REG}.get_name"]
-_gn.ensures.update({
-    "canonical": "self._units[result].name == result",
-    "same_root": "forall[Str](lambda q: r1(q, result) == r1(q, name_or_alias))",
-    "same_factor": "f1(result) == f1(name_or_alias)",
-    "fac": "implies(old(RegFac(self)), RegFac(self))",
-})
-
 contract(f"{REG}._get_root_units_recurse",
          params={"self": "Ref[GenericPlainRegistry]", "ref": "Ref[UnitsContainer]", "exp": "Num",
                  "accumulators": "DDict[Opt[Str],Num]"},
@@ -205,7 +195,6 @@ contract(f"{REG}._get_root_units_recurse",
              "factor": "contents(accumulators)[None] == old(contents(accumulators))[None] * FacOf(ref, exp)",
              "units": "forall[Str](lambda q: contents(accumulators)[q] == old(contents(accumulators))[q] "
                       "+ exp * RootOf(q, ref))",
-             "reg": "RegFac(self)",
          },
          loops={0: dict(
              invariant={
@@ -213,17 +202,113 @@ contract(f"{REG}._get_root_units_recurse",
                            "* FacS(processed, vals(view(ref)), exp)",
                  "units": "forall[Str](lambda q: contents(accumulators)[q] == old(contents(accumulators))[q] "
                           "+ exp * RootS(q, processed, vals(view(ref))))",
-                 "reg": "RegFac(self)",
-                 "ref": "wf(ref) and names_ok(ref) and iterated == keys(ref._d)",
+                 "ref": "iterated == keys(ref._d)",
              },
              hints={
+                 # the unit's own factor, from its definition (RegFac after get_name)
+                 "unit_def": "implies(not $reg._is_base and not is_none($reg.reference), "
+                             "pw(f1(elem_key), exp * view(ref)[elem_key]) == "
+                             "pw($reg.converter.scale, exp * view(ref)[elem_key]) "
+                             "* FacOf(some($reg.reference), exp * view(ref)[elem_key]))",
                  # one unit contributes pw(f1(unit), exp * exponent) to the factor
                  "unit_factor": "contents(accumulators)[None] == at_head(contents(accumulators)[None]) "
                                 "* pw(f1(elem_key), exp * view(ref)[elem_key])",
                  "insert": "FacS(store(processed, elem_key, True), vals(view(ref)), exp) == "
                            "FacS(processed, vals(view(ref)), exp) * pw(f1(elem_key), exp * view(ref)[elem_key])",
              },
-             modifies=["contents(accumulators)", "contents(self._units)"])},
-         modifies=["contents(accumulators)", "contents(self._units)"],
+             modifies=["contents(accumulators)"])},
+         modifies=["contents(accumulators)"],
+         bind={"reg": "self._units[key]"},
          theories=("root", "fac"),
          props=["C02", "C13"])
+
+
+# =========================================================================== _get_root_units / conversion factor / convert
+specfn("conv_mult", ["Ref[Converter]"], "Bool")
+
+contract("pint.converters:Converter.is_multiplicative",
+         params={"self": "Ref[Converter]"}, returns="Bool", pure=True,
+         ensures={"def": "result == conv_mult(self)"}, modifies=[], trusted=True,
+         note="dispatches over the converter classes (Scale: True, Offset: offset == 0, Logarithmic: False); "
+              "the subclass bodies are the subject of C06",
+         props=["C02"])
+
+predicate("CacheRootOK", ["r: Ref[GenericPlainRegistry]"], """
+    allocated(r._cache) and allocated(r._cache.root_units)
+    and forall[Map[Str,Num]](lambda m: implies(m in r._cache.root_units,
+            wf(r._cache.root_units[m][1]) and exact_class(r._cache.root_units[m][1], 'UnitsContainer')),
+            "r._cache.root_units[m][1]")
+    and forall[Map[Str,Num]](lambda m: implies(m in r._cache.root_units and not is_none(r._cache.root_units[m][0]),
+            some(r._cache.root_units[m][0]) == FacS(keys(m), vals(m), 1)), "r._cache.root_units[m][0]")
+    and forall[Map[Str,Num], Str](lambda m, q: implies(m in r._cache.root_units,
+            view(r._cache.root_units[m][1])[q] == RootS(q, keys(m), vals(m))), "view(r._cache.root_units[m][1])[q]")
+""")
+
+contract(f"{REG}._get_root_units",
+         params={"self": "Ref[GenericPlainRegistry]", "input_units": "Ref[UnitsContainer]", "check_nonmult": "Bool"},
+         returns="Tuple[Opt[Num],Ref[UnitsContainer]]",
+         requires={"fac": "RegFac(self)", "cache": "CacheRootOK(self)",
+                   "in": "wf(input_units) and names_ok(input_units)"},
+         allow_exc=("UndefinedUnitError", "OffsetUnitCalculusError", "KeyError"),
+         ensures={
+             "factor": "implies(not is_none(result[0]), some(result[0]) == FacOf(input_units, 1))",
+             "units": "forall[Str](lambda q: view(result[1])[q] == RootOf(q, input_units))",
+             "wf": "wf(result[1]) and exact_class(result[1], 'UnitsContainer')",
+             "cache": "CacheRootOK(self)",
+         },
+         local_types={"accumulators": "DDict[Opt[Str],Num]"},
+         modifies=["contents(self._cache.root_units)"],
+         theories=("root", "fac"),
+         props=["C02", "C13"])
+
+
+predicate("CacheFacOK", ["r: Ref[GenericPlainRegistry]"], """
+    allocated(r._cache) and allocated(r._cache.conversion_factor)
+    and forall[Map[Str,Num], Map[Str,Num], Str](lambda m, n, b: implies((m, n) in r._cache.conversion_factor and b != "[]",
+            DimS(b, keys(m), vals(m)) == DimS(b, keys(n), vals(n))), ("DimS(b, keys(m), vals(m))", "DimS(b, keys(n), vals(n))"))
+    and forall[Map[Str,Num], Map[Str,Num]](lambda m, n: implies((m, n) in r._cache.conversion_factor
+            and not is_none(r._cache.conversion_factor[(m, n)]),
+            some(r._cache.conversion_factor[(m, n)]) == FacDiff(keys(m), vals(m), keys(n), vals(n))),
+            "r._cache.conversion_factor[(m, n)]")
+""")
+
+contract(f"{REG}._get_conversion_factor",
+         params={"self": "Ref[GenericPlainRegistry]", "src": "Ref[UnitsContainer]", "dst": "Ref[UnitsContainer]"},
+         returns="Union[Opt[Num],Exc[DimensionalityError]]",
+         requires={"reg": "RegDim(self)", "fac": "RegFac(self)", "cdim": "CacheDimOK(self)", "croot": "CacheRootOK(self)",
+                   "cfac": "CacheFacOK(self)",
+                   "in": "wf(src) and names_ok(src) and wf(dst) and names_ok(dst) and same_class(src, dst)"},
+         allow_exc=("ValueError", "UndefinedUnitError", "OffsetUnitCalculusError", "KeyError"),
+         ensures={
+             # the central clause of C01: an error object is returned exactly when some base dimension differs
+             "error_iff_dim_differs": "is_exc(result) == exists[Str](lambda b: b != '[]' and DimOf(b, src) != DimOf(b, dst))",
+             # C02: the factor is the ratio Factor(src) / Factor(dst) (FacDiff, theory/axioms.py)
+             "factor_is_ratio": "implies(not is_exc(result) and not is_none(alt(result, 0)), "
+                                "some(alt(result, 0)) == FacDiff(keys(src._d), vals(view(src)), keys(dst._d), vals(view(dst))))",
+             "cdim": "CacheDimOK(self)",
+             "croot": "CacheRootOK(self)",
+             "cfac": "CacheFacOK(self)",
+         },
+         modifies=["contents(self._cache.dimensionality)", "contents(self._cache.root_units)",
+                   "contents(self._cache.conversion_factor)", "allof(UnitsContainer._hash)"],
+         theories=("lin", "fac", "facdiff"),
+         props=["C01", "C02", "C13"])
+
+contract(f"{REG}._convert",
+         params={"self": "Ref[GenericPlainRegistry]", "value": "Num", "src": "Ref[UnitsContainer]",
+                 "dst": "Ref[UnitsContainer]", "inplace": "Bool", "check_dimensionality": "Bool"},
+         returns="Num",
+         requires={"reg": "RegDim(self)", "fac": "RegFac(self)", "cdim": "CacheDimOK(self)", "croot": "CacheRootOK(self)",
+                   "cfac": "CacheFacOK(self)",
+                   "in": "wf(src) and names_ok(src) and wf(dst) and names_ok(dst) and same_class(src, dst)"},
+         # C01: DimensionalityError is raised exactly when some base dimension differs -- and then no number is returned
+         raises={"DimensionalityError": "exists[Str](lambda b: b != '[]' and DimOf(b, src) != DimOf(b, dst))"},
+         allow_exc=("ValueError", "UndefinedUnitError", "OffsetUnitCalculusError", "KeyError", "TypeError", "ArithmeticError"),
+         ensures={
+             # C02: the result is the value times the ratio of the two factors
+             "value_times_ratio": "result == value * FacDiff(keys(src._d), vals(view(src)), keys(dst._d), vals(view(dst)))",
+             "cdim": "CacheDimOK(self)", "croot": "CacheRootOK(self)", "cfac": "CacheFacOK(self)",
+         },
+         modifies=["contents(self._cache.dimensionality)", "contents(self._cache.root_units)",
+                   "contents(self._cache.conversion_factor)", "allof(UnitsContainer._hash)"],
+         props=["C01", "C02"])
